@@ -52,7 +52,30 @@ Alphabet == <<
   [sym |-> "stoparg",  class |-> "source"],     \* fun k(a: Int, b: Int) { a } k(1, nosuchvar3)  (stopped with values pending)
   [sym |-> "stoptest", class |-> "source"],     \* test t2 { assert(1 == 2) } then the test runs and fails
   [sym |-> "replaceBad", class |-> "evalcmd"],  \* :replace nosuchvar2
-  [sym |-> "replaceCall", class |-> "evalcmd"]  \* :replace f()
+  [sym |-> "replaceCall", class |-> "evalcmd"], \* :replace f()
+  \* the rest of the command vocabulary (src/commands.rs:131-159)
+  [sym |-> "doc",      class |-> "cmd"],        \* :doc f
+  [sym |-> "docnone",  class |-> "cmd"],        \* :doc
+  [sym |-> "help",     class |-> "cmd"],        \* :help
+  [sym |-> "funs",     class |-> "cmd"],
+  [sym |-> "globals",  class |-> "cmd"],
+  [sym |-> "methods",  class |-> "cmd"],        \* :methods String
+  [sym |-> "methodsnone", class |-> "cmd"],     \* :methods
+  [sym |-> "namespace", class |-> "cmd"],       \* :namespace
+  [sym |-> "nsswitch", class |-> "cmd"],        \* :namespace __user.gdn  (switches to another namespace)
+  [sym |-> "namespaces", class |-> "cmd"],
+  [sym |-> "parse",    class |-> "cmd"],        \* :parse 1 +
+  [sym |-> "parsenone", class |-> "cmd"],       \* :parse
+  [sym |-> "search",   class |-> "cmd"],        \* :search pr
+  [sym |-> "source",   class |-> "cmd"],        \* :source f
+  [sym |-> "types",    class |-> "cmd"],
+  [sym |-> "uptime",   class |-> "cmd"],
+  [sym |-> "version",  class |-> "cmd"],
+  [sym |-> "forgetcalls", class |-> "cmd"],     \* :forget_calls
+  [sym |-> "loadmissing", class |-> "cmd"],     \* :load /nonexistent.gdn
+  [sym |-> "loadfile", class |-> "cmd"],        \* :load lib.gdn  (defines g, which throws)
+  [sym |-> "trace",    class |-> "cmd"],        \* :trace  (toggles; trace text must travel as `printed` responses)
+  [sym |-> "quit",     class |-> "quit"]        \* :quit  ends the process: the one request that is not answered
 >>
 
 \* admissible answer kinds per request class (independent of the state:
@@ -63,24 +86,26 @@ Admissible(class) ==
     [] class = "cmd"       -> {"command", "value", "error"}
     [] class = "evalupto"  -> {"value", "error"}
     [] class = "malformed" -> {"malformed"}
+    [] class = "quit"      -> {}                 \* handled by Quit, not by Worker
 
 VARIABLES hist,       \* request symbols sent so far (indices into Alphabet)
           chan,       \* mpsc channel reader -> worker (request numbers)
           answered,   \* sequence of [for |-> request number, kind |-> ...] in print order
           stopped,    \* abstract session state
-          alive       \* the worker thread is alive
+          alive,      \* the worker thread is alive
+          quitAt      \* 0, or the number of the :quit request that ended the process
 
-vars == <<hist, chan, answered, stopped, alive>>
+vars == <<hist, chan, answered, stopped, alive, quitAt>>
 
-Init == hist = <<>> /\ chan = <<>> /\ answered = <<>> /\ stopped = FALSE /\ alive = TRUE
+Init == hist = <<>> /\ chan = <<>> /\ answered = <<>> /\ stopped = FALSE /\ alive = TRUE /\ quitAt = 0
 
 \* the client writes a line; the reader forwards it
 Send(a) ==
   /\ a \in Allowed
   /\ Len(hist) < MaxLen
   /\ hist' = Append(hist, a)
-  /\ chan' = Append(chan, Len(hist) + 1)
-  /\ UNCHANGED <<answered, stopped, alive>>
+  /\ chan' = IF alive THEN Append(chan, Len(hist) + 1) ELSE chan    \* written to a process that is gone
+  /\ UNCHANGED <<answered, stopped, alive, quitAt>>
 
 \* the worker handles the head of the channel and prints one answer
 Worker ==
@@ -91,19 +116,35 @@ Worker ==
         /\ stopped' = IF r.class \in {"source", "evalcmd"} THEN (k = "error")
                       ELSE IF r.sym = "abort" THEN FALSE ELSE stopped
   /\ chan' = Tail(chan)
-  /\ UNCHANGED <<hist, alive>>
+  /\ UNCHANGED <<hist, alive, quitAt>>
 
-Next == (\E a \in 1..Len(Alphabet) : Send(a)) \/ Worker
+\* :quit (src/commands.rs Command::Quit: std::process::exit(0)): the worker
+\* ends the process without an answer; whatever the reader had queued or
+\* reads later is never served.  A deliberate deviation from "every request
+\* is answered", named here rather than hidden in Worker.
+Quit ==
+  /\ alive /\ chan # <<>>
+  /\ Alphabet[hist[Head(chan)]].class = "quit"
+  /\ quitAt' = Head(chan)
+  /\ alive' = FALSE
+  /\ chan' = <<>>
+  /\ UNCHANGED <<hist, answered, stopped>>
 
-Spec == Init /\ [][Next]_vars /\ WF_vars(Worker)
+Next == (\E a \in 1..Len(Alphabet) : Send(a)) \/ Worker \/ Quit
+
+Spec == Init /\ [][Next]_vars /\ WF_vars(Worker) /\ WF_vars(Quit)
 
 (* C09 *)
 OneResponsePerRequest ==
   /\ Len(answered) <= Len(hist)
   /\ \A i \in 1..Len(answered) : answered[i].for = i        \* in request order, exactly once
 Quiescent == chan = <<>>
-AllAnswered == Quiescent => Len(answered) = Len(hist)
-EventuallyAnswered == <>[](Len(hist) = MaxLen => Len(answered) = Len(hist))
+\* every request before the first :quit the worker reached is answered; nothing after it
+Due == IF quitAt = 0 THEN Len(hist) ELSE quitAt - 1
+AllAnswered == Quiescent => Len(answered) = Due
+EventuallyAnswered == <>[](Len(hist) = MaxLen => Len(answered) = Due)
+\* the process ends only by :quit
+DiesOnlyByQuit == alive <=> quitAt = 0
 
 \* One REPLAY line per complete history (emitted from the quiescent state
 \* that has sent MaxLen requests and answered them all).
@@ -113,5 +154,5 @@ Emit ==
 
 \* Histories are what matters for the replay; answers are nondeterministic
 \* and would multiply states: the view keeps one state per history prefix.
-View == <<hist, Len(chan)>>
+View == <<hist, Len(chan), quitAt>>
 =============================================================================
